@@ -264,6 +264,73 @@ pub fn run(cx: &mut Cx) -> String {
         Ok(())
     });
 
+    // (2b) size measures of constants against the specification's `memoryUsage`
+    cx.prop("size-measures", tier.of(200_000, 4_000_000), 80, |src, st| {
+        st.eval();
+        use crate::model::mconst::D;
+        use num_bigint::BigInt;
+        use num_traits::{Signed, Zero};
+        fn int_words(i: &BigInt) -> i64 {
+            if i.is_zero() { 1 } else { ((i.abs().bits() - 1) / 64 + 1) as i64 }
+        }
+        fn bytes_words(n: usize) -> i64 {
+            if n == 0 { 1 } else { ((n - 1) / 8 + 1) as i64 }
+        }
+        fn data_words(d: &D) -> i64 {
+            4 + match d {
+                D::I(i) => int_words(i),
+                D::B(b) => bytes_words(b.len()),
+                D::L(xs) | D::C(_, xs) => xs.iter().map(data_words).sum(),
+                D::M(kvs) => kvs.iter().map(|(k, v)| data_words(k) + data_words(v)).sum(),
+            }
+        }
+        // boundary integers: exact powers of 2^64 and their neighbours, both signs
+        let boundary = |src: &mut Src| -> BigInt {
+            let k = 1 + src.below(4) as u32;
+            let base = BigInt::from(1) << (64 * k);
+            let v = base + src.range(-1, 1);
+            if src.bool() { v } else { -v }
+        };
+        let variant = *src.pick(&[Variant::B, Variant::C, Variant::D, Variant::E]);
+        let (lang, pv) = crate::props::c03::lang_pv(variant);
+        let sem = uplc::machine::runtime::BuiltinSemantics::for_language_and_protocol(&lang, pv);
+        let (value, want, shown): (uplc::machine::value::Value, i64, String) = match src.below(4) {
+            0 => {
+                let i = if src.bool() { boundary(src) } else { crate::gen_::consts::gen_int(src, true) };
+                (uplc::machine::value::Value::integer(i.clone()), int_words(&i), format!("integer {i}"))
+            }
+            1 => {
+                let b = crate::gen_::consts::gen_bytes(src, true);
+                (uplc::machine::value::Value::byte_string(b.clone()), bytes_words(b.len()), format!("bytestring of {} bytes", b.len()))
+            }
+            _ => {
+                // Data with boundary integers inside, in canonical and in non-canonical forms
+                let exotic = src.bool();
+                let mut pd = crate::gen_::consts::gen_data_with(src, 3, true, exotic);
+                if src.chance(1, 2) {
+                    let i = boundary(src);
+                    let leaf = crate::gen_::consts::pd_int(&i);
+                    pd = match src.below(3) {
+                        0 => leaf,
+                        1 => uplc::ast::Data::list(vec![pd, leaf]),
+                        _ => uplc::ast::Data::constr(1, vec![leaf, pd]),
+                    };
+                }
+                let d = D::from_pd(&pd);
+                let shown = crate::gen_::consts::show_data(&pd).chars().take(300).collect::<String>();
+                (uplc::machine::value::Value::data(pd), data_words(&d), format!("data {shown}"))
+            }
+        };
+        let got = no_panic(|| value.to_ex_mem_with_semantics(sem)).map_err(|p| panic_failure("to_ex_mem", p, json!({"value": shown})))?;
+        if got != want {
+            return Err(Failure::new("size-measure-differs", json!({"input": {"value": shown, "variant": format!("{variant:?}")}, "expected_words": want, "actual_words": got})));
+        }
+        st.class("size:ok");
+        st.nontrivial(&shown);
+        st.sample(|| json!({"value": shown, "words": want}));
+        Ok(())
+    });
+
     // (4) parameter perturbation
     let all: Vec<F> = gu::all_builtins();
     let costs3 = costs.clone();
